@@ -2,7 +2,8 @@
 
 Model: spec/Narrowing.tla (+ spec/Boolability.tla), extending Assign.tla / ValueAlgebra.tla / Values.tla.
 TLC proves, for every type term V of the bounded space, every condition c (isinstance, issubclass,
-TypeIs / TypeGuard functions, is / is not, == / !=, in / not in, truthiness, len comparisons, the class /
+TypeIs / TypeGuard functions, is / is not, == / !=, in / not in, truthiness, len comparisons, ordering comparisons against a
+numeric literal (x < 1, x >= 0, ...), the class /
 identity constraints behind assert_is_instance / assert_is, not / and / or over those, and the value /
 singleton / class / or / sequence (fixed and starred, capture sub-patterns) patterns of `match`) and both
 polarities, that the modelled narrowing keeps every object of V on which the condition evaluates to the
@@ -16,23 +17,44 @@ the real Constraint / predicate objects built from the model's abstract-constrai
 the condition to on every object of the universe; TLC (spec/trace/NarrowingTrace.tla) first checks its
 own model of the conditions against that, then judges N1 / N2 / N3 on the REAL results and compares them
 with the model (drift).
+
+Flow-level slice (spec/ConstraintFlow.tla, spec/trace/ConstraintFlowTrace.tla, harness/flow_common.py): constraints are attached to
+the definition nodes that were current when the condition was evaluated and may be applied later.  TLC enumerates small
+functions over x / a saved condition ok / opaque flag() calls (assignment, saved condition, if on a flag / a saved
+condition / an immediate condition, else, early return, walrus, `c and U(x)` / `c or U(x)`, while on a flag / saved /
+immediate condition) and proves that the model of FunctionScope (fake definition nodes, the origin guard of
+_add_single_constraint, combine_subscopes, two visits of a loop body) keeps, at every recorded read of x, every object
+a concrete CPython execution can see there (FlowN1) and adds nothing outside the assignments that can reach the read
+(FlowN2).  Every function is rendered to Python, checked by the real visitor and executed under real CPython for every
+argument object and choice of flags; TLC first compares its execution model with the recorded runs, then judges the REAL
+inferred types and compares them with the model.
 """
 from __future__ import annotations
 
 import random
+import time
 from concurrent.futures import ThreadPoolExecutor
 from typing import Any, Optional
 
 from .. import core
+from .. import flow_common as fc
 from .. import narrow_common as nc
 
 LEVEL = "model_checking"
 ACTIONS = [
     "ChooseV", "ChooseVCompound", "ChooseIsinstance", "ChooseIssubclass", "ChooseTypeIs", "ChooseTypeGuard", "ChooseIs",
-    "ChooseEq", "ChooseIn", "ChooseTruthy", "ChooseLen", "ChooseLegacyIsinstance", "ChooseLegacyIsvalue", "ChooseNot",
+    "ChooseEq", "ChooseIn", "ChooseTruthy", "ChooseLen", "ChooseCmp", "ChooseLegacyIsinstance", "ChooseLegacyIsvalue", "ChooseNot",
     "ChooseAnd", "ChooseOr", "ChooseDeep", "ChooseMatch", "ChooseMatchOr", "ChooseMatchSeq",
 ]
 BATCH = 6000
+FLOW_ACTIONS = [
+    "ADecl", "AAssign", "ASaveCond", "AOkFlag", "AUse", "AReturn", "AEnterIf", "AEnterIfSaved", "AEnterIfCond", "AEnterIfWalrus",
+    "AEnterIfAnd", "AEnterIfOr", "AEnterWhile", "AEnterWhileSaved", "AEnterWhileCond", "AElse", "AMerge", "AFinish",
+]
+FLOW_SLICES = {"quick": ["q1", "q2", "q3"], "thorough": ["q1", "q2", "q3", "t1", "t2", "t3"]}
+# slices whose functions are only model-checked (Impl |= oracle), not replayed: none in quick
+FLOW_REPLAY_LIMIT = {"quick": 10**9, "thorough": 400000}
+FLOW_BATCH = 2500
 
 
 def universe() -> list[dict]:
@@ -136,6 +158,193 @@ def judge(check: core.Check, cases: list[dict], vs: list[dict], objs_t: list[dic
     return counts
 
 
+# --------------------------------------------------------------------------- flow-level slice (ConstraintFlow.tla)
+def _flow_cfg_constants(cfg: str) -> dict[str, str]:
+    out = {}
+    for line in (core.SPEC / "mc" / cfg).read_text().splitlines():
+        if "=" in line and line.startswith("  "):
+            k, v = line.strip().split("=", 1)
+            out[k.strip()] = v.strip()
+    return out
+
+
+def flow_case_key(case: dict) -> str:
+    return core.canon({"decl": case["decl"], "toks": case["toks"]}) + "#flow"
+
+
+def flow_observe(cases: list[dict], first_tid: int = 1, procs: int = core.NCPU) -> list[dict]:
+    items = [(first_tid + i, c) for i, c in enumerate(cases)]
+    chunks = [items[i : i + 120] for i in range(0, len(items), 120)]
+    return [o for part in core.pmap(fc.observe_chunk, chunks, procs=procs, chunk=1) for o in part]
+
+
+def flow_adjudicate(obs: list[dict], parallel: int = 6) -> tuple[dict, dict]:
+    lines = [{k: v for k, v in o.items() if k != "src"} for o in obs]
+    return core.adjudicate("ConstraintFlowTrace", "ConstraintFlowTrace.cfg", lines, batch=FLOW_BATCH, parallel=parallel, timeout=3000)
+
+
+def flow_judge(check: core.Check, cases: list[dict], label: str) -> dict[str, int]:
+    t0 = time.time()
+    obs = flow_observe(cases)
+    t1 = time.time()
+    verdicts, stats = flow_adjudicate(obs, parallel=6 if check.tier == "quick" else 12)
+    wall = check.cov.setdefault("flow", {}).setdefault("wall_s", {})
+    wall["observe"] = round(wall.get("observe", 0) + t1 - t0, 1)
+    wall["adjudicate"] = round(wall.get("adjudicate", 0) + time.time() - t1, 1)
+    check.add_trace_stats(stats)
+    check.evals(len(obs))
+    counts: dict[str, int] = {}
+    by_tid = {o["tid"]: o for o in obs}
+    for tid, vals in verdicts.items():
+        o = by_tid[tid]
+        case = {"decl": o["decl"], "toks": o["toks"]}
+        payload = {"case": case, "observation": {k: o[k] for k in ("src", "inf", "runs")}, "source": label}
+        for v in sorted(set(vals)):
+            counts[v] = counts.get(v, 0) + 1
+            if v.startswith("oracle:"):
+                raise core.MachineryError(f"the execution model disagrees with real CPython ({v}) on\n{o['src']}\nruns={o['runs']}")
+            if v.startswith("viol:"):
+                check.violation(flow_case_key(case), v[5:], payload)
+            elif v.startswith("dev:"):
+                check.violation(v[4:], v[4:], payload)
+            elif v.startswith("drift:"):
+                check.drift({"verdict": v, **payload})
+            else:
+                raise core.MachineryError(f"unknown verdict {v}")
+    fl = check.cov.setdefault("flow", {})
+    fl["functions_replayed"] = fl.get("functions_replayed", 0) + len(obs)
+    fl["recorded_reads_judged"] = fl.get("recorded_reads_judged", 0) + sum(len(o["inf"]) for o in obs)
+    fl["cpython_runs_compared"] = fl.get("cpython_runs_compared", 0) + sum(len(o["runs"]) for o in obs)
+    for o in obs[:: max(1, len(obs) // 2)][:2]:
+        check.sample({"source": label, "src": o["src"], "inf": o["inf"], "runs": len(o["runs"])}, limit=8)
+    return counts
+
+
+def flow_selftest_binding() -> None:
+    """Corrupt recorded fields of one real flow observation and confirm that TLC flags each corruption."""
+    I, S = {"k": "typed", "c": "int"}, {"k": "typed", "c": "str"}
+    isinst = {"kind": "isinstance", "cls": ["int"], "lits": [], "t": {"k": "union", "ms": []}, "op": "", "n": 0, "neg": False, "subs": []}
+    none = {"c": "NoneType", "v": "None", "items": []}
+    truthy = dict(isinst, kind="truthy", cls=[])
+    tok = lambda t, c=truthy, d=none: {"t": t, "c": c, "d": d}  # noqa: E731
+    # ok = isinstance(x, int); if flag(): x = "a"; if ok: U(6, x)
+    case = {"decl": {"k": "union", "ms": [I, S]},
+            "toks": [tok("save", isinst), tok("ifflag"), tok("asg", d={"c": "str", "v": "a", "items": []}), tok("end"), tok("ifok"), tok("use"), tok("end")]}
+    (base,) = flow_observe([case], procs=1)
+    # the inferred types of all four lines are written by hand (the self-test must not depend on the tree under test):
+    # the guard drops the stale constraint, x is int | str | Literal['a'] in the branch
+    a = dict(base, tid=1, inf=[{"u": 6, "t": {"k": "union", "ms": [I, S, {"k": "known", "o": {"c": "str", "v": "a", "items": []}}]}}])
+    b = dict(base, tid=2, inf=[{"u": 6, "t": I}])                                     # the stale narrowing: 'a' is lost
+    c = dict(base, tid=3, inf=[{"u": 6, "t": {"k": "union", "ms": [I, S, {"k": "known", "o": none}]}}])   # widened
+    d = dict(base, tid=4, runs=base["runs"][1:])                                      # a CPython run withheld
+    verdicts, _ = flow_adjudicate([a, b, c, d], parallel=1)
+    ok = (1 not in verdicts and "viol:FlowN1" in verdicts.get(2, []) and "viol:FlowN2" in verdicts.get(3, [])
+          and "oracle:runs" in verdicts.get(4, []))
+    if not ok:
+        raise core.MachineryError(f"flow binding self-test failed: {verdicts}")
+
+
+def flow_start(check: core.Check) -> dict:
+    """Start the TLC runs of the flow slice (they overlap with the TLC runs of the Narrowing part)."""
+    tc = _flow_cfg_constants("ConstraintFlowTrace.cfg")
+    if int(tc["FBits"]) != fc.FBITS or int(tc["FMaxTicks"]) != fc.FMAXTICKS:
+        raise core.MachineryError("flow_common.FBITS / FMAXTICKS differ from ConstraintFlowTrace.cfg")
+    slices = FLOW_SLICES[check.tier]
+    sens = [("ConstraintFlow.sens_guard.cfg", "InvFlow"), ("ConstraintFlow.sens_noguard.cfg", "InvFlow"),
+            ("ConstraintFlow.sens_once.cfg", "InvFlow"), ("ConstraintFlow.sens_widen.cfg", "InvFlow"),
+            ("ConstraintFlow.strict.cfg", "InvFlowStrict"), ("ConstraintFlow.fixed.cfg", None)]
+
+    def tlc_slice(name: str):
+        return name, core.run_tlc("ConstraintFlowEmit", f"ConstraintFlow.{name}.cfg", workers=max(2, core.NCPU // 2), timeout=3000)
+
+    def tlc_sens(item):
+        return item, core.run_tlc("ConstraintFlowEmit", item[0], workers=2, timeout=900)
+
+    def tlc_cov():
+        return core.run_tlc("ConstraintFlow", "ConstraintFlow.cov.cfg", workers=2, coverage=True, timeout=900)
+
+    ex = ThreadPoolExecutor(4)
+    return {"t0": time.time(), "ex": ex, "slices": [ex.submit(tlc_slice, n) for n in slices], "cov": ex.submit(tlc_cov),
+            "sens": [ex.submit(tlc_sens, it) for it in sens]}
+
+
+def flow_collect(check: core.Check, started: dict) -> dict:
+    """Wait for the TLC runs (called before any worker process is forked)."""
+    started["results"] = [f.result() for f in started["slices"]]
+    started["sens_results"] = [f.result() for f in started["sens"]]
+    started["cov_result"] = started["cov"].result()
+    started["ex"].shutdown()
+    started["t1"] = time.time()
+    return started
+
+
+def flow_finish(check: core.Check, started: dict) -> None:
+    rnd = random.Random(check.seed + 5)
+    results, sens_results = started["results"], started["sens_results"]
+    cov = core.require_ok(started["cov_result"], "flow coverage")
+    core.require_coverage(cov, FLOW_ACTIONS, "ConstraintFlow")
+    check.add_tlc("coverage:ConstraintFlow.cov.cfg", cov)
+    t0, t1 = started["t0"], started["t1"]
+    for (cfg, inv), r in sens_results:
+        if r.violated != inv or (inv is None and not r.ok):
+            raise core.MachineryError(f"flow sensitivity self-test {cfg}: expected {inv} to be violated, got {r.violated} / {r.error}")
+    t2 = time.time()
+    flow_selftest_binding()
+    fl = check.cov.setdefault("flow", {})
+    fl["wall_s"] = {"tlc_slices_coverage_sensitivity (overlapping the Narrowing TLC runs)": round(t1 - t0, 1), "binding_selftest": round(time.time() - t2, 1)}
+    fl["sensitivity"] = (
+        "InvFlow is violated when the Impl model's origin guard is reversed (the seeded-change family) or removed, when a loop body is "
+        "visited once, and (FlowN2) when an assignment keeps the old definition nodes; InvFlowStrict (no deviation class) is violated on "
+        "the model of the code as found and holds on the model with proposed/C02-fix-4.diff; corrupted observations (stale narrowing, "
+        "widened type, withheld CPython run) are flagged viol:FlowN1 / viol:FlowN2 / oracle:runs"
+    )
+    fl["slices"] = {}
+    all_cases: dict[str, dict] = {}
+    for name, res in results:
+        core.require_ok(res, f"ConstraintFlow {name}")
+        check.add_tlc(f"flow:{name} (InvFlowEmit)", res)
+        cases = [c for c in core.emitted_json(res) if "toks" in c]
+        consts = _flow_cfg_constants(f"ConstraintFlow.{name}.cfg")
+        fl["slices"][name] = {
+            "functions": len(cases), "states": res.distinct,
+            "bounds": {k: consts[k] for k in ("FKinds", "FConds", "FLits", "FDecls", "FMaxStmts", "FMaxDepth")},
+            "with_fake_definition_node": sum(1 for c in cases if c["fakes"] > 0),
+            "with_constraint_dropped_by_origin_guard": sum(1 for c in cases if c["drops"] > 0),
+        }
+        for c in cases:
+            all_cases.setdefault(flow_case_key(c), dict(c, slice=name))
+    cases = list(all_cases.values())
+    if not cases:
+        raise core.MachineryError("no flow functions emitted")
+    kinds = {t["t"] for c in cases for t in c["toks"]}
+    missing = {"asg", "save", "okflag", "use", "ret", "ifflag", "ifok", "ifc", "else", "end", "whflag", "whok", "whc", "ifwal", "ifand", "ifor"} - kinds
+    if missing:
+        raise core.MachineryError(f"flow token kinds never generated: {sorted(missing)}")
+    if not any(c["drops"] > 0 for c in cases) or not any(c["fakes"] > 1 for c in cases):
+        raise core.MachineryError("flow slice is vacuous: the origin guard never drops a constraint / no function stacks fake nodes")
+    limit = FLOW_REPLAY_LIMIT[check.tier]
+    fl["functions_model_checked"] = len(cases)
+    fl["replay_exhaustive"] = len(cases) <= limit
+    if len(cases) > limit:
+        # the quick slices are always replayed in full; the rest is a seeded sample
+        must = [c for c in cases if c["slice"].startswith("q")]
+        rest = [c for c in cases if not c["slice"].startswith("q")]
+        cases = must + rnd.sample(rest, min(len(rest), limit))
+    for c in cases:
+        if c["fakes"] > 0 or c["drops"] > 0:
+            check.nontrivial(flow_case_key(c))
+    plain = [{"decl": c["decl"], "toks": c["toks"]} for c in cases]
+    fl["verdict_counts"] = flow_judge(check, plain, "tlc-flow-" + check.tier)
+    fl["rule"] = (
+        "functions enumerated by TLC (ConstraintFlow.tla generator: every token sequence within the bounds of each slice, no dead code, "
+        "no empty blocks, ok bound before it is tested, at most one loop level), each model-checked (InvFlow) and replayed through the real "
+        f"visitor and real CPython (FBits={fc.FBITS} free flag() results, loop bodies entered at most {fc.FMAXTICKS} times per run, argument "
+        "objects 1 / True / 'a' / None of the declared type); non-trivial = the model creates a fake definition node or the origin guard drops a constraint"
+    )
+    check.cov["rule"] = check.cov.get("rule", "") + "; FLOW SLICE: " + fl["rule"] + " -- bounds per slice under coverage.flow.slices"
+    check.cov["exhaustive_flow_replay"] = fl["replay_exhaustive"]
+
+
 def run(check: core.Check) -> None:
     quick = check.tier == "quick"
     rnd = random.Random(check.seed)
@@ -149,9 +358,14 @@ def run(check: core.Check) -> None:
         "TypeIs / TypeGuard functions are hand-written run-time tests of exactly their type (validated against Member)",
         "visitor route: no model prediction (oracle only) for and/or conditions and for conditions containing a call the "
         "visitor rejects; V with *tuple[...] segments and the class/identity constraints (assert_is_instance) are api-route only",
-        "not covered: mapping / class-with-subpattern / guarded / nested sequence match patterns, comparison predicates other than len (x < 3), len inside and/or chains (MinLen/MaxLen "
+        "flow slice: x is the only narrowed variable (a parameter, re-assigned literals), one saved-condition variable ok, conditions "
+        "isinstance(x, int|str) / x is (not) None and their `not`, opaque flag() calls; U(k, x) returns True (the visitor sees `-> bool`); "
+        "return only as the last statement of a branch; no break / continue / try / for (C09's subject); no attribute or subscript targets",
+        "not covered: mapping / class-with-subpattern / guarded / nested sequence match patterns, ordering comparisons with the variable on the right (1 < x) or against "
+        "non-numeric literals, len / ordering comparisons inside and/or chains (MinLen/MaxLen/Gt.. "
         "annotations), TypedDict / Callable / TypeVar values, attribute or subscript targets (self.x, a[0])",
     ]
+    flow = flow_start(check)
     cfg = "Narrowing.quick.cfg" if quick else "Narrowing.thorough.cfg"
     res = core.require_ok(core.run_tlc("Narrowing", cfg, timeout=3400), "Narrowing exhaustive")
     check.add_tlc("exhaustive:" + cfg, res)
@@ -162,13 +376,14 @@ def run(check: core.Check) -> None:
     check.add_tlc("coverage:Narrowing.cov.cfg", cov)
     # sensitivity self-tests (InvN3Strict holds once the abstract-class repair is declared applied in the cfgs)
     abc_fixed = "abc_boolable" in (core.SPEC / "mc" / "Narrowing.strict3.cfg").read_text().split("NFixed")[1].split("\n")[0]
-    for c, inv in (("Narrowing.sens.cfg", "InvN1"), ("Narrowing.strict1.cfg", "InvN1Strict"),
+    for c, inv in (("Narrowing.sens.cfg", "InvN1"), ("Narrowing.sens_cmp.cfg", "InvN1"), ("Narrowing.strict1.cfg", "InvN1Strict"),
                    ("Narrowing.strict3.cfg", None if abc_fixed else "InvN3Strict")):
         r = core.run_tlc("Narrowing", c, workers=2, timeout=900)
         if r.violated != inv:
             raise core.MachineryError(f"sensitivity self-test {c}: expected {inv} to be violated, got {r.violated} / {r.error}")
     check.cov["sensitivity"] = (
-        "InvN1 is violated when the model's EqualsPredicate drops the `typ is bool` test (NBug=eq_bool_no_typecheck); "
+        "InvN1 is violated when the model's EqualsPredicate drops the `typ is bool` test (NBug=eq_bool_no_typecheck) and when the "
+        "negative branch of an ordering comparison keeps using the positive operator (NBug=cmp_neg_not_negated); "
         "InvN1Strict / InvN3Strict (no deviation classes) are violated on the model of the current code"
     )
     em = core.require_ok(
@@ -188,20 +403,25 @@ def run(check: core.Check) -> None:
         "where V has annotation syntax, through the visitor; non-trivial = the real code changed the type of x in at least one branch"
     )
     kinds = {c["c"]["kind"] for c in cases}
-    missing = {"isinstance", "issubclass", "typeis", "typeguard", "is", "eq", "in", "truthy", "boolcall", "len", "c_isinstance",
+    missing = {"isinstance", "issubclass", "typeis", "typeguard", "is", "eq", "in", "truthy", "boolcall", "len", "cmp", "c_isinstance",
                "c_isvalue", "not", "and", "or", "m_value", "m_singleton", "m_class", "m_or", "m_seq"} - kinds
     if missing:
         raise core.MachineryError(f"condition kinds never generated: {sorted(missing)}")
+    flow_collect(check, flow)  # before the first fork of worker processes
     counts = judge(check, cases, vs, objs_t, "tlc-exhaustive")
     # beyond the exhaustive replay bound: depth-2 values by TLC simulation
     sim = core.simulate_cases("NarrowingEmit", "Narrowing.sim.cfg", 1500 if quick else 40000, depth=3, seed=check.seed + 11, check=check)
     sim = [c for c in sim if "ac" in c]
     counts2 = judge(check, sim, [], objs_t, "tlc-simulate-depth2")
     check.cov["verdict_counts"] = {"exhaustive": counts, "simulate": counts2}
+    flow_finish(check, flow)
 
 
 def replay(check: core.Check, witness: dict) -> None:
     case = witness["case"]
+    if "toks" in case:
+        flow_judge(check, [{"decl": case["decl"], "toks": case["toks"]}], "replay")
+        return
     objs_t = universe()
     judge(check, [case] if "ac" in case else [], [case["v"]], objs_t, "replay")
 
